@@ -222,7 +222,7 @@ func (c *Ctx) RuleValidate() *Result {
 				return
 			}
 			ex, ok := x.(*ssa.Extract)
-			if !ok {
+			if !ok || ex.Index != 0 || isErrorType(ex.Type()) {
 				return
 			}
 			call, ok := ex.Tuple.(*ssa.Call)
@@ -326,7 +326,7 @@ func (c *Ctx) RuleResolve() *Result {
 	}
 	if nameField == nil {
 		res.Instances++
-		res.undecided("cmd:resolved file name", "-", "no place stores the matched argument as the resolved file name")
+		res.bad("cmd:resolved file name", "-", "no place stores the matched argument text (group 0 of the rule-id pattern, plus .ra when missing) as the resolved file name: the file that is opened is rebuilt from parsed parts and can differ from the one named (chain0, zero-padded offsets)")
 	} else {
 		g := nameField.X.(*ssa.Global)
 		for _, fn := range c.P.RepoFns {
@@ -493,6 +493,36 @@ func (c *Ctx) RuleResolve() *Result {
 			} else {
 				res.ok(key, pos, "root = -d flag value (resolved), configuration = -f flag value")
 			}
+		})
+	}
+	// (r2') without -d the root is the working directory itself
+	for _, fn := range c.P.RepoFns {
+		allInstrs(fn, func(in ssa.Instruction) {
+			st, ok := in.(*ssa.Store)
+			if !ok {
+				return
+			}
+			_, tn := namedOf(st.Val.Type())
+			if tn != "workingDirectory" {
+				return
+			}
+			// inside the flag's own Set method the search result is stored (r2)
+			if fn.Name() == "Set" {
+				return
+			}
+			src := stripConv(st.Val)
+			if _, isConst := src.(*ssa.Const); isConst {
+				return
+			}
+			res.Instances++
+			key := load.FnName(fn) + ":default root"
+			if ex, ok := src.(*ssa.Extract); ok && ex.Index == 0 {
+				if rc, ok := ex.Tuple.(*ssa.Call); ok && isFn(staticCallee(&rc.Call), "os", "Getwd") {
+					res.ok(key, c.P.InstrPos(st), "the default root is os.Getwd() itself")
+					return
+				}
+			}
+			res.bad(key, c.P.InstrPos(st), "without -d the CRS root is not the working directory itself but a computed value: a command run below a root adopts (and may rewrite) the enclosing tree")
 		})
 	}
 	// (r2) the -d flag stores the result of the root search
